@@ -1,6 +1,6 @@
 #!/bin/bash
 # ev.sh PROP out-dir name [extra props]: run seed_eval and print one line
-python3 /verif/tools/seed_eval.py "$@" 2>&1 | python3 -c "
+python3 "$(dirname "$0")"/seed_eval.py "$@" 2>&1 | python3 -c "
 import sys,json
 t=sys.stdin.read()
 try:
